@@ -178,6 +178,47 @@ Proof.
 Qed.
 End Gamma0.
 
+(* heterogeneous mean-field: the SIR version is written in (theta, Rk) coordinates *)
+Section G0.
+Variables (t tau : Q).
+(* gamma = 0, no recovered nodes (Rk = 0, which gamma = 0 preserves): with S_k = S0_k theta^k and
+   I_k = N_k - S_k the SIS right-hand side for S_k is the chain-rule image k S0_k theta^(k-1) theta'
+   of the SIR right-hand side for theta *)
+Lemma gamma0_heterogeneous_meanfield_partial theta S0 Nk n :
+  ~ theta == 0 -> length S0 = n -> length Nk = n ->
+  let Sk := vmul S0 (spow_arange theta n) in
+  let Ik := vsub Nk Sk in
+  let sis := dSIS_heterogeneous_meanfield (Sk ++ Ik) t n tau 0 in
+  let sir := dSIR_heterogeneous_meanfield ([theta] ++ zeros n) t S0 Nk tau 0 in
+  forall k, (k < n)%nat ->
+    nth k (slice_to n sis) 0 == Qnat k * nth k S0 0 * qpow theta (Z.of_nat k - 1) * vnth 0 sir.
+Proof.
+  intros Hth HlS HlN. cbv zeta. intros k Hk.
+  set (Sk := vmul S0 (spow_arange theta n)). set (Ik := vsub Nk Sk).
+  assert (HlSk : length Sk = n) by (subst Sk; veclen).
+  assert (HlIk : length Ik = n) by (subst Ik; veclen).
+  unfold dSIS_heterogeneous_meanfield, dSIR_heterogeneous_meanfield.
+  cbn [app slice_from skipn vnth nth]. rewrite zeros_length.
+  assert (E1 : slice_to n (Sk ++ Ik) = Sk) by (rewrite <- HlSk at 1; apply slice_to_app).
+  assert (E2 : slice_from n (Sk ++ Ik) = Ik) by (rewrite <- HlSk at 1; apply slice_from_app).
+  rewrite E1, E2.
+  set (piS := dot (arange n) Ik / dot (arange n) (vadd Ik Sk)).
+  set (z := vmuls (vmul (smul tau (arange n)) Sk) piS).
+  assert (Hlen : length (vsub (smul 0 Ik) z) = n) by (subst z; veclen).
+  rewrite <- Hlen at 1. rewrite slice_to_app. clear Hlen.
+  fold Sk.
+  assert (HI : veq (vsub (vsub Nk Sk) (zeros n)) Ik).
+  { apply vsub_allz_r; [apply allz_zeros|]. fold Ik. veclen. }
+  assert (HN : veq (vadd Ik Sk) Nk).
+  { apply veq_of_nth; [veclen|]. intros i Hi. rewrite nth_vadd by veclen. subst Ik. rewrite nth_vsub by veclen. ring. }
+  rewrite (dot_veq_r _ _ _ HI).
+  subst z. rewrite nth_vsub, nth_smul, nth_vmuls, nth_vmul, nth_smul, nth_arange by veclen.
+  subst piS. rewrite (dot_veq_r _ _ _ HN).
+  subst Sk. rewrite nth_vmul, nth_spow_arange by veclen.
+  rewrite <- (qpow_pred theta k Hth). q0.
+Qed.
+End G0.
+
 (* ====================================================================== *)
 (* C08  final sizes                                                        *)
 (* ====================================================================== *)
